@@ -826,7 +826,7 @@ func (vc *VC) evalClause(fr *frame, st *State, cl *Clause, extra map[string]EV) 
 	for k, v := range extra {
 		c.names[k] = v
 	}
-	c.useLocals = cl.Kind == "invariant" || cl.Kind == "assert" || cl.Kind == "decreases"
+	c.useLocals = cl.Kind == "invariant" || cl.Kind == "assert" || cl.Kind == "decreases" || cl.Kind == "loopassume"
 	return c.bool(c.eval(cl.Expr), cl.Expr)
 }
 
